@@ -528,8 +528,9 @@ def gen_float(rng, dtype, F, B, chunks, with_rot, gravity, style, reset=False, p
 
 
 def witness():
-    """the witness of C16_cov_chunk_invariance_refuted (coq/Proofs/IMU.v): three frames, gyro = 0, dt = 1/2,
-    accelerations e_x, e_y, e_z, no gravity, unit sensor covariances; fed as [2,1] chunks vs one call"""
+    """regression case = the witness of C16_old_cov_chunk_invariance_refuted (coq/Proofs/IMU.v): three frames, gyro = 0,
+    dt = 1/2, accelerations e_x, e_y, e_z, no gravity, unit sensor covariances; fed as [2,1] chunks vs one call.
+    Before /repo 608b3d9 (cumprod with left=True in propagate_cov) cov[8,8] was 141/128 in one call, 149/128 in chunks."""
     mk = lambda accs: dict(dt=[[0.5] * len(accs)], gyro=[[[0.0, 0.0, 0.0]] * len(accs)], acc=[accs], rot=None, ranks=[3] * 4)
     return dict(dtype='float64', gravity=0.0, gyro_cov=[1.0, 1.0, 1.0], acc_cov=[1.0, 1.0, 1.0], prop_cov=True, reset=False,
                 pos=[0.0, 0.0, 0.0], rot=[0.0, 0.0, 0.0, 1.0], vel=[0.0, 0.0, 0.0],
@@ -567,7 +568,7 @@ def run(ctx):
         ctx.count('frames', nfr * max(1, sc.get('B', 1)))
         return r
 
-    # ---------------------------------------------------------------- 0: the recorded finding's witness
+    # ---------------------------------------------------------------- 0: directed regression case (defect repaired in /repo 608b3d9)
     wsc = witness()
     wr = add(wsc, cov_exact=True)
     for key, what in property_check(pp, torch, wsc, wr):
@@ -698,11 +699,11 @@ def run(ctx):
     # ---------------------------------------------------------------- search around mismatches
     for m in ctx.mismatches[:20]:
         sc = m['case']['scenario']
-        found = [kw for kw in property_check(pp, torch, sc) if kw[0] != KEY_COV]
+        found = property_check(pp, torch, sc)
         if not found:
             # shrink / vary: single frames, prefixes, other chunkings of the same stream
             for sc2 in variants(rng, sc):
-                found = [kw for kw in property_check(pp, torch, sc2) if kw[0] != KEY_COV]
+                found = property_check(pp, torch, sc2)
                 if found:
                     sc = sc2
                     break
